@@ -21,8 +21,8 @@ IO = {'readULong', 'readByteString', 'readBool', 'readMechanismTypeSet', 'readAt
       'truncate', 'seek', 'rewind', 'flush'}
 
 
-def r1_chain(ctx, prog):
-    r = ctx.rule('C15.R1', 'every access path re-validates against the disk: isValid -> refresh -> index + wasUpdated; getObjects -> index', floor=5, engine='E6+E3')
+def r1_chain(ctx, prog, rule_id='C15.R1'):
+    r = ctx.rule(rule_id, 'every access path re-validates against the disk: isValid -> refresh -> index + wasUpdated; getObjects -> index', floor=5, engine='E6+E3')
     f = prog.fn('ObjectFile::isValid')
     ctx.analysed(f)
     o = outcomes(f, prog, {}, record={'refresh'}, rounds=1)
@@ -234,6 +234,8 @@ def run(ctx):
     # isValid() is where an object is re-read from disk (R1): every API use of an object reached through a handle must pass it for THAT object, or this process works on stale attributes
     from rules import c11
     c11.r3_validate(ctx, prog, rule_id='C15.R6')
+    from rules import c09
+    c09.r2_pairing(ctx, prog, rule_id='C15.R7')
 
 
 MUTANTS = [
